@@ -26,6 +26,9 @@ import (
 	"path/filepath"
 	"sort"
 	"strings"
+
+	"oss.terrastruct.com/d2/d2target"
+	"oss.terrastruct.com/d2/lib/shape"
 )
 
 // the render path: export, target model, SVG renderer (+appendix, sketch), themes, svg/shape/label/color
@@ -302,8 +305,8 @@ func init() {
 				hh.Write(b)
 			}
 		}
-		cache := filepath.Join(os.TempDir(), fmt.Sprintf("c25-inventory-v1-%x.v", hh.Sum(nil)[:12]))
-		if old, err := os.ReadFile(cache); err == nil && strings.HasSuffix(string(old), "].\n") {
+		cache := filepath.Join(os.TempDir(), fmt.Sprintf("c25-inventory-v2-%x.v", hh.Sum(nil)[:12]))
+		if old, err := os.ReadFile(cache); err == nil && strings.Contains(string(old), "Definition square_type") {
 			return string(old)
 		}
 		var b strings.Builder
@@ -320,6 +323,22 @@ func init() {
 			b.WriteString("\n")
 		}
 		b.WriteString("].\n")
+		// d2target.DSL_SHAPE_TO_SHAPE_TYPE as linked into this binary (site d2target.init inverts it)
+		b.WriteString("Definition shape_table : list (string * string) := [\n")
+		var ks []string
+		for k := range d2target.DSL_SHAPE_TO_SHAPE_TYPE {
+			ks = append(ks, k)
+		}
+		sort.Strings(ks)
+		for i, k := range ks {
+			fmt.Fprintf(&b, "  (%s, %s)", c25CoqString(k), c25CoqString(d2target.DSL_SHAPE_TO_SHAPE_TYPE[k]))
+			if i+1 < len(ks) {
+				b.WriteString(";")
+			}
+			b.WriteString("\n")
+		}
+		b.WriteString("].\n")
+		fmt.Fprintf(&b, "Definition square_type : string := %s.\n", c25CoqString(shape.SQUARE_TYPE))
 		tmp := cache + fmt.Sprintf(".%d", os.Getpid())
 		if os.WriteFile(tmp, []byte(b.String()), 0o644) == nil {
 			os.Rename(tmp, cache)
